@@ -41,8 +41,9 @@ OPS = [
 
 def mutants_of(rel):
     src = open(os.path.join(BASE, rel)).read()
-    cut = src.find('#[cfg(test)]')
-    body_end = cut if cut >= 0 else len(src)
+    import re as _re
+    mt = _re.search(r'#\[cfg\(test\)\]\s*(?:pub )?mod \w+\s*\{', src)
+    body_end = mt.start() if mt else len(src)
     ms = []
     for (pat, rep) in OPS:
         for m in re.finditer(pat, src[:body_end]):
